@@ -41,7 +41,7 @@ PKG = "yv-g09"
 
 TIERS = {
     "quick": {"gen": "Gen_Startup_quick.cfg", "real_every": 70, "random": (6000, 500), "timeout": 900},
-    "thorough": {"gen": "Gen_Startup_thorough.cfg", "real_every": 25, "random": (60000, 6000), "timeout": 3000},
+    "thorough": {"gen": "Gen_Startup_thorough.cfg", "real_every": 12, "random": (200000, 15000), "timeout": 3000},
 }
 NEGATIVE = ["interactive-stdin-only", "monitor-only-explicit", "rc-noninteractive", "trap-twice", "trap-status",
             "interactive-exits-on-error"]
